@@ -28,6 +28,7 @@ RULE = (
 )
 ASSUMPTIONS = [
     "allowed_numbers is always given explicitly: the content of the built-in default list is not part of the statement (the documentation and the unit tests disagree about it, see DESIGN C02/C19)",
+    "legacy octal literals (017) are outside the alphabet: TypeScript and strict-mode JavaScript reject them",
     "a negative number is judged on its literal token (Python/TS/Rust grammars have no negative literals); the alphabet only uses it where both readings agree",
     "the value named by a violation is parsed back from the message `Magic number <text>` and compared numerically",
 ]
@@ -40,9 +41,9 @@ DOC_DEFAULT = [-1, 0, 1, 2, 3, 4, 5, 10, 100, 1000]
 
 # (spelling text, numeric value) per language group
 PY_LITS = [("7", 7), ("42", 42), ("3600", 3600), ("3.14", 3.14), ("2.5e-3", 2.5e-3), ("1e6", 1e6), ("0x1F", 31), ("0o17", 15), ("0b1011", 11), ("10_000", 10000), ("5", 5), ("100", 100), ("443", 443), ("5000", 5000)]
-TS_LITS = [("7", 7), ("42", 42), ("3600", 3600), ("3.14", 3.14), ("2.5e-3", 2.5e-3), ("1e6", 1e6), ("0x1F", 31), ("0o17", 15), ("0b1011", 11), ("10_000", 10000), ("5", 5), ("100", 100), ("443", 443), ("5000", 5000), (".75", 0.75)]
-RS_LITS = [("7", 7), ("42", 42), ("3600", 3600), ("3.14", 3.14), ("1e6", 1e6), ("0x1F", 31), ("0o17", 15), ("0b1011", 11), ("10_000", 10000), ("5", 5), ("100", 100), ("443", 443), ("42u8", 42), ("42_i32", 42), ("3.5f64", 3.5), ("1_024usize", 1024)]
-EXT_LITS = {"rs": [("0x1f32", 0x1F32), ("0xfu8", 15)], "ts": [("017", 15), ("10n", 10)], "py": [("7j", None)]}
+TS_LITS = [("7", 7), ("42", 42), ("3600", 3600), ("3.14", 3.14), ("2.5e-3", 2.5e-3), ("1e6", 1e6), ("0x1F", 31), ("0o17", 15), ("0b1011", 11), ("10_000", 10000), ("5", 5), ("100", 100), ("443", 443), ("5000", 5000), (".75", 0.75), ("0xBEEF", 48879)]
+RS_LITS = [("7", 7), ("42", 42), ("3600", 3600), ("3.14", 3.14), ("1e6", 1e6), ("0x1F", 31), ("0o17", 15), ("0b1011", 11), ("10_000", 10000), ("5", 5), ("100", 100), ("443", 443), ("42u8", 42), ("42_i32", 42), ("3.5f64", 3.5), ("1_024usize", 1024), ("0xBEEF", 48879)]
+EXT_LITS = {"rs": [("0x1f32", 0x1F32), ("0xfu8", 15)], "ts": [("10n", 10), ("0X1e", 30), ("1E3", 1000.0)], "py": [("7j", None)]}
 
 # context -> (lines with {L}, index of the literal line, exempt?)  {N} = unique function name
 PY_CTX = {
@@ -317,6 +318,8 @@ def run_item(item) -> Acc:
             "rs": ["fn {N}() {{", "    compute({A}, {B});", "}}"],
         }[lang]
         pool = [("42", 42), ("7", 7), ("3.14", 3.14), ("5", 5), ("0x1F", 31)]
+        if item.get("all"):
+            pool = [(lt, v) for (lt, v) in lits if v is not None]
         out_lines, exp = [], []
         i = 0
         for a in pool:
